@@ -1741,7 +1741,7 @@ package p9p
 //@ macro SRC1 = (final_done ? bempty : bcat(dirsEnc(final_dirs), bsrc(next)))
 //@ func mkNext1$1
 //@ property C17
-//@ timeout 60
+//@ timeout 120
 //@ use bytes dirlist dirext assoc_r noassoc
 //@ requires next != nil
 //@ requires !done ==> (forall j int :: {rawat("Dir", base(dirs), j)} off(dirs) <= j && j < off(dirs) + len(dirs) ==> repDir(rawat("Dir", base(dirs), j)))
